@@ -27,6 +27,15 @@ func init() {
 					jobs = append(jobs, j(a, b, a))
 				}
 			}
+			// two-pair maps in both representations (every arrangement of a triple), maps keyed by functions and large arrays
+			for _, t := range [][3]string{{"P", "P", "P"}, {"P", "P", "G"}, {"P", "G", "P"}, {"G", "P", "P"}, {"G", "G", "P"}, {"G", "P", "G"}, {"P", "G", "G"}, {"G", "G", "G"}} {
+				jobs = append(jobs, j(t[0], t[1], t[2]))
+			}
+			for _, a := range []string{"H", "J", "L"} {
+				for _, b := range []string{"H", "J", "L", "M", "P", "A", "U"} {
+					jobs = append(jobs, j(a, b, a), j(b, a, b))
+				}
+			}
 			if tier == "thorough" {
 				cont := []string{"A", "AF", "M", "I", "F"}
 				for _, a := range cont {
